@@ -22,6 +22,7 @@ type Task struct {
 	Step   int // scheduler step at which the task was last resumed (task-local)
 
 	// root-owned (scheduler goroutine) below
+	weight    int // Skew: the task's current share of the scheduler's choice
 	site      string
 	kind      int
 	blockedAt int
@@ -66,6 +67,7 @@ type Sched struct {
 	Stalls    []time.Duration // non-empty: the tape may stall runnable tasks and let time pass
 	StallW    int             // weight of the stall option against 4 per runnable task
 	YieldMask int
+	Skew      bool // tasks get unequal, occasionally redrawn weights (1, 4 or 16) instead of equal ones: longer runs of one task, long-delayed others
 	OnIdle    func() // called on the root goroutine whenever nothing is runnable, before time advances
 	OnStep    func() // called on the root goroutine before every decision (everything is blocked)
 	StopWhen  func() bool
@@ -82,6 +84,8 @@ type Sched struct {
 	Exhausted bool     // MaxSteps reached
 	SimTime   time.Duration
 }
+
+var skewWeights = []int{4, 1, 16}
 
 // NewSched creates the scheduler for c; must be called inside a synctest
 // bubble on the goroutine that will call Run.
@@ -240,6 +244,7 @@ func (s *Sched) Run() {
 		s.settle()
 		if s.OnStep != nil {
 			s.OnStep()
+			s.settle() // whatever the hook set in motion has come to rest before the decision
 		}
 		if s.StopWhen != nil && s.StopWhen() {
 			break
@@ -268,12 +273,29 @@ func (s *Sched) Run() {
 			s.Switches++
 		}
 		n := 4 * len(el)
+		if s.Skew {
+			// priorities in the manner of PCT: drawn when a task is first seen, one of them
+			// redrawn now and then
+			for _, t := range el {
+				if t.weight == 0 {
+					t.weight = skewWeights[tape.Draw(len(skewWeights), "weight")]
+				}
+			}
+			if len(el) > 1 && tape.Draw(8, "reweigh") == 7 {
+				el[tape.Draw(len(el), "reweigh-whom")].weight = skewWeights[tape.Draw(len(skewWeights), "weight")]
+			}
+			n = 0
+			for _, t := range el {
+				n += t.weight
+			}
+		}
+		tasksN := n
 		stall := len(s.Stalls) > 0 && s.StallW > 0
 		if stall {
 			n += s.StallW
 		}
 		v := tape.Draw(n, "sched")
-		if v >= 4*len(el) {
+		if v >= tasksN {
 			d := s.Stalls[tape.Draw(len(s.Stalls), "stall")]
 			if d > s.Horizon-now {
 				d = s.Horizon - now
@@ -293,6 +315,16 @@ func (s *Sched) Run() {
 				names += t.Name + "@" + t.site + " "
 			}
 			s.Trace = append(s.Trace, StepRec{s.step, "(eligible)", fmt.Sprintf("v=%d n=%d: %s", v, n, names), now})
+		}
+		if s.Skew {
+			for _, t := range el {
+				if v < t.weight {
+					s.release(t)
+					break
+				}
+				v -= t.weight
+			}
+			continue
 		}
 		s.release(el[v/4])
 	}
@@ -370,6 +402,18 @@ func (s *Sched) Drain(maxSteps int) {
 func (s *Sched) Quiescent() bool {
 	s.settle()
 	return len(s.parked) == 0 && s.live == 0
+}
+
+// ParkedAt is the site at which the named task waits for the scheduler ("" when it
+// runs, has ended or does not exist).  Root context, when the scheduler is settled
+// (OnStep): lets a harness place a fault inside a particular operation.
+func (s *Sched) ParkedAt(name string) string {
+	for _, t := range s.parked {
+		if t.Name == name {
+			return t.site
+		}
+	}
+	return ""
 }
 
 // LiveSpawned names the goroutines started by instrumented code (not harness
